@@ -338,7 +338,7 @@ def run(ctx):
         for tagbase, what, detail in fails:
             if tagbase not in first_fail:
                 first_fail[tagbase] = (what, detail)
-        for tagbase, (what, detail) in sorted(first_fail.items())[:3]:
+        for tagbase, (what, detail) in sorted(first_fail.items(), key=lambda kv: str(kv[0]))[:3]:
             if len(ctx.violations) >= 3:
                 break
             if tagbase in cases:
